@@ -1,4 +1,5 @@
 import VibeProof.Model.View
+import VibeProof.Lemmas.Reindex
 /-
 C32 — views and CTEs behave as their defining query.
 -/
@@ -52,6 +53,23 @@ theorem C32_filter_compose {α : Type} (p q : α → TV) (rows : List α) :
   apply List.filter_congr
   intro r _
   cases hq : q r <;> cases hp : p r <;> simp [TV.and3]
+
+/-- a view (or CTE) defined as `SELECT * FROM t` is interchangeable with `t` itself in every
+outer query, on every database whose rows have the declared width -/
+theorem C32_star_view_is_table (env : Env) (db : Db) (name : Name) (i w : Nat) (rows : List Row) (outer : Core)
+    (hc : lookupCI name env.ctes = none) (hv : lookupCI name env.views = some (selectStar i w))
+    (ht : db.tables[i]? = some (w, rows)) (hw : ∀ r ∈ rows, r.length = w) :
+    evalNamed env db name outer
+      = (outer.reindex (fun j => if j = db.tables.length then i else j)).eval db := by
+  rw [C32_view_eq_derived env db name _ outer hc hv]
+  exact derived_wrap_identity db i w rows outer ht hw
+
+/-- a query over a view only depends on the database through the tables it (and the view) read:
+re-indexing lemma instantiated — the same query over two databases that agree table by table
+gives the same result -/
+theorem C32_depends_only_on_tables (d1 d2 : Db) (body outer : Core) (h : d1.tables = d2.tables) :
+    evalDerived d1 body outer = evalDerived d2 body outer := by
+  cases d1; cases d2; simp only at h; subst h; rfl
 
 /-- non-vacuity: a CTE named like a view (up to case) shadows it -/
 example :
